@@ -1,7 +1,9 @@
 import EmsModel.Core.Polygons
 import EmsModel.Lemmas.Polygons
+import EmsModel.Lemmas.GeomBox
 import Mathlib.Algebra.Order.Field.Rat
 import Mathlib.Tactic.NormNum
+import Mathlib.Tactic.Linarith
 /-!
 # C06 — cell polygons and dataset extent are faithful to the dataset's coordinates
 
@@ -316,5 +318,59 @@ example : midBounds [0, 2, 6] = some [(-1, 1), (1, 4), (4, 8)] := by norm_num [m
 example : arakawaPolys [[some 0, some 2], [some 0, none]] [[some 0, some 0], [some 2, some 2]] 1 1 = [none] := by decide
 example : ugridPolys [(0,0),(2,0),(2,2)] [[2,0,1]] = [some [(2,2),(0,0),(2,0)]] := by decide
 example : bbox [(0,3),(2,-1)] = some (0, -1, 2, 3) := by decide
+
+/-! ### Overall geometry of a CF 1-D grid -/
+
+theorem cf1dGeometryBox_some {lonb latb : List (Rat × Rat)} {x0 y0 x1 y1 : Rat}
+    (h : cf1dGeometryBox lonb latb = some (x0, y0, x1, y1)) :
+    contiguous lonb = true ∧ contiguous latb = true ∧
+    minL (boundEnds lonb) = some x0 ∧ minL (boundEnds latb) = some y0 ∧
+    maxL (boundEnds lonb) = some x1 ∧ maxL (boundEnds latb) = some y1 := by
+  unfold cf1dGeometryBox at h
+  split at h
+  · rename_i hc
+    simp only [Bool.and_eq_true] at hc
+    split at h
+    · rename_i a b c d e1 e2 e3 e4
+      simp only [Option.some.injEq, Prod.mk.injEq] at h
+      obtain ⟨rfl, rfl, rfl, rfl⟩ := h
+      exact ⟨hc.1, hc.2, e1, e2, e3, e4⟩
+    · simp at h
+  · simp at h
+
+/-- **Overall geometry of a CF 1-D grid.** Whenever `CFGrid1D.geometry` answers with the bounding box
+(its contiguity test passed on both axes), a point lies in that box exactly when it lies in some cell:
+the box *is* the union of the cells — for every number of cells, either axis direction, cells of any
+width. -/
+theorem cf1d_box_is_union (lonb latb : List (Rat × Rat)) (x0 y0 x1 y1 : Rat)
+    (h : cf1dGeometryBox lonb latb = some (x0, y0, x1, y1)) (x y : Rat) :
+    (x0 ≤ x ∧ x ≤ x1 ∧ y0 ≤ y ∧ y ≤ y1) ↔ ∃ xb ∈ lonb, ∃ yb ∈ latb, inCell x xb ∧ inCell y yb := by
+  obtain ⟨cx, cy, ex0, ey0, ex1, ey1⟩ := cf1dGeometryBox_some h
+  constructor
+  · rintro ⟨a, b, c, d⟩
+    obtain ⟨xb, hxb, hx⟩ := span_covered_of_contiguous lonb x0 x1 cx ex0 ex1 x a b
+    obtain ⟨yb, hyb, hy⟩ := span_covered_of_contiguous latb y0 y1 cy ey0 ey1 y c d
+    exact ⟨xb, hxb, yb, hyb, hx, hy⟩
+  · rintro ⟨xb, hxb, yb, hyb, hx, hy⟩
+    have a := cell_within_span lonb x0 x1 ex0 ex1 x xb hxb hx
+    have b := cell_within_span latb y0 y1 ey0 ey1 y yb hyb hy
+    exact ⟨a.1, a.2, b.1, b.2⟩
+
+/-- … and those cells are the polygons of the dataset: each pair of bounds is the rectangle at a linear index -/
+theorem cf1d_cell_is_polygon (lonb latb : List (Rat × Rat)) (xb yb : Rat × Rat)
+    (hx : xb ∈ lonb) (hy : yb ∈ latb) :
+    ∃ n : Nat, (cf1dPolys lonb latb)[n]? = some (some (rect xb yb)) := by
+  obtain ⟨i, hi, rfl⟩ := List.getElem_of_mem hx
+  obtain ⟨j, hj, rfl⟩ := List.getElem_of_mem hy
+  exact ⟨j * lonb.length + i, cf1d_polygon_at lonb latb j i hj hi⟩
+
+/-- the test is needed: bounds with a gap (here on a north-to-south axis) are refused … -/
+example : cf1dGeometryBox [(0, 1), (1, 2)] [(5, 4), (3, 2)] = none := by decide +kernel
+/-- … because the box would hold points of no cell; a test `≤` instead of `=` would accept these bounds -/
+example : (decide ((3 : Rat) ≤ 4)) = true ∧ ¬ (inCell (7/2 : Rat) (5, 4) ∨ inCell (7/2 : Rat) (3, 2)) := by
+  refine ⟨by decide +kernel, ?_⟩
+  unfold inCell; norm_num
+/-- non-vacuity: contiguous bounds in either direction give the box -/
+example : cf1dGeometryBox [(0, 1), (1, 3)] [(5, 4), (4, 2)] = some (0, 2, 3, 5) := by decide +kernel
 
 end Ems.C06
